@@ -231,6 +231,13 @@ impl Property for C17 {
                 }
             }
             text = gen::rewrap_nonansi_with(&text, &after);
+            if rng.chance(1, 4) {
+                // near-valid headers: what the (failing) ANSI attempt tolerates and memoises, the non-ANSI attempt may replay
+                if let Some(rest) = text.strip_prefix("module m(zz_p);") {
+                    let head = *rng.pick(&["module m(zz_p,);", "module m #(parameter ZP = 1,) (zz_p);", "module m #(parameter ZP = 1) (zz_p,);", "module m #(ZP = 1,) (zz_p);"]);
+                    text = format!("{}{}", head, rest);
+                }
+            }
         }
         if rng.chance(1, 4) {
             // near-valid: what one alternative tolerates and memoises, another may replay
